@@ -18,8 +18,17 @@
 #    along with this program.  If not, see <http://www.gnu.org/licenses/>.
 #
 
+from decimal import Decimal
 from bitcoinlib.networks import *
 from bitcoinlib.config.config import NETWORK_DENOMINATORS
+
+
+def _scale(value, factor):
+    # Multiply with exact decimal arithmetic: float(value) * factor is off by one unit for large amounts
+    try:
+        return float(Decimal(value if isinstance(value, str) else repr(value)) * Decimal(repr(factor)))
+    except ArithmeticError:
+        return float(value) * factor
 
 
 def value_to_satoshi(value, network=None):
@@ -177,11 +186,11 @@ class Value:
                             raise ValueError("Currency symbol not recognised")
                         den_input = den
                         break
-            self.value = float(value) * den_input
+            self.value = _scale(value, den_input)
             self.denominator = den_input if den_arg is None else den_arg
         else:
             self.denominator = den_arg or 1.0
-            self.value = float(value) * self.denominator
+            self.value = _scale(value, self.denominator)
 
     def __str__(self):
         return self.str()
